@@ -12,6 +12,7 @@ From Coq Require Import List String Arith Bool.
 From Gluon Require Import Gen.FactsLocks Model.LockOrder Model.Teardown Proofs.ConcProofs.
 From Gluon Require Import Gen.FactsServe Model.ServerStop Proofs.ServerStopProofs.
 From Gluon Require Import Gen.FactsQueue Model.QueueClose Proofs.QueueCloseProofs.
+From Gluon Require Import Gen.FactsGuard Model.Guard Proofs.GuardProofs.
 Import ListNotations.
 
 (* Generic, for all numbers of threads and all lock sets: if whatever a thread waits for ranks strictly above everything
@@ -155,6 +156,29 @@ Theorem C19_queue_unlocked_broadcast_refuted :
 Proof. exact unlocked_broadcast_refuted_lemma. Qed.
 Print Assumptions C19_queue_unlocked_broadcast_refuted.
 
+(* ---- the fields of a state that another session's teardown reads (Model/Guard.v) ---- *)
+
+(* generic: if only the owning goroutine writes the field and does so with the lock held exclusively, and every other
+   goroutine that reads it holds the lock, then any two accesses that could race are kept apart by the lock *)
+Theorem C19_guard_discipline_no_race : forall owner a b,
+  disciplined owner a -> disciplined owner b -> conflicting a b -> kept_apart a b = true.
+Proof. exact guard_no_race. Qed.
+Print Assumptions C19_guard_discipline_no_race.
+
+(* the source follows the discipline for State.snap and snapMsgList.idx: every assignment found by the extractor holds the
+   lock exclusively (i.e. goes through State.setSnap / happens inside the locked sections of insert, insertOutOfOrder,
+   remove) and the foreign readers State.HasMessage / snapMsgList.has hold it.  By computation on Gen/FactsGuard.v. *)
+Theorem C19_guarded_fields_written_under_lock : guarded_fields_ok = true.
+Proof. exact fact_guarded_fields_ok. Qed.
+Print Assumptions C19_guarded_fields_written_under_lock.
+
+(* user.removeState cannot return before the state has left user.states and statesWG.Done() is deferred: the step
+   SRelease1 -> SRelease2 of Model/Teardown.v is always taken (a failing database read used to abort it, after which
+   RemoveUser and Close waited for ever).  By computation on Gen/FactsServe.v. *)
+Theorem C19_release_cannot_abort_before_removal : remove_state_cannot_abort_early = true.
+Proof. exact fact_remove_state_cannot_abort_early. Qed.
+Print Assumptions C19_release_cannot_abort_before_removal.
+
 (* non-vacuity: three sessions; one logs out, the closer runs while the others are active, everything ends *)
 Example C19_example_run :
   exists s, run (init 3)
@@ -182,3 +206,13 @@ Example C19_example_queue :
               [QCons; QCons; QCons; QCons; QCons; QCons; QEnq; QCons; QCloser; QCons; QCloser; QCons; QCloser; QCloser; QCons; QCons] = Some s
   /\ close_returned s = true /\ consumer_left s = true.
 Proof. eexists. vm_compute. repeat split. Qed.
+
+(* non-vacuity for the guard discipline: the owner writes under the exclusive lock while another goroutine reads under the
+   shared lock: disciplined, conflicting, kept apart; an unlocked write by the owner is not disciplined *)
+Example C19_example_guard :
+  disciplined 1 (mkAccess 1 AWrite LExcl) /\ disciplined 1 (mkAccess 2 ARead LShared) /\
+  conflicting (mkAccess 1 AWrite LExcl) (mkAccess 2 ARead LShared) /\ ~ disciplined 1 (mkAccess 1 AWrite LNone).
+Proof.
+  unfold disciplined, conflicting; cbn. split; [auto|]. split; [right; discriminate|]. split; [split; [discriminate|auto]|].
+  intros [_ H]. discriminate H.
+Qed.
